@@ -207,6 +207,8 @@ pub fn prop() -> HistProp {
     w.liquidate = 1;
     // the pauser edits the whitelist and the owner the ratios in between (neither exempts anybody from the margin rules)
     w.whitelist = 3;
+    // the pauser role changes hands: to a trading account and back (holding a role is not being whitelisted)
+    w.handover = 2;
     w.ecfg = 3;
     HistProp {
         id: "C05",
